@@ -6,12 +6,13 @@ def showCall : Call → String
   | .resp i h s => s!"resp:{i}:{h}:{s}"
 def step (line : String) : String :=
   match line.trimAscii.toString.splitOn " " with
-  | "run" :: indep :: routed :: resp :: comps =>
+  | "run" :: indep :: tgt :: resp :: comps =>
+    let target : Target := match tgt with | "r" => .route | "m" => .noMethod | "s" => .sink | _ => .nothing
     let cs := comps.filter (· != "") |>.map fun c =>
       match c.splitOn "," with
       | [a, b, d] => ({ req := act a, rsrc := act b, resp := act d } : Comp)
       | _ => { req := none, rsrc := none, resp := none }
-    " ".intercalate ((run { comps := cs, independent := indep == "1", routed := routed == "1", responder := (act resp).getD .ret }).map showCall)
+    " ".intercalate ((run { comps := cs, independent := indep == "1", target := target, responder := (act resp).getD .ret }).map showCall)
   | _ => "bad-op"
 partial def loop (h : IO.FS.Stream) : IO Unit := do
   let line ← h.getLine
